@@ -246,7 +246,7 @@ func c13Query(res *Result, c *Cli, key string, objs []c13Obj, qlat, qlon float64
 }
 
 func checkC13(job *Job, res *Result) {
-	res.Rule = "SEQ: all datasets of <= 2 (thorough 3) objects from a 18-object catalogue (lattice points at poles / antimeridian, duplicates, 4 rectangles, 2 rectangles degenerate on one axis) each built by 6 histories (direct; moved into place; extras inserted and deleted; ids that first held an empty geometry; ids that first held a string / re-created; other ids that held geometries overwritten by strings), plus 4 datasets of 130 objects (antimeridian, pole, one shared latitude, one shared longitude); x 49 lattice query points (+ 6 off-lattice near the antimeridian); per query: full order, DISTANCE values, LIMIT k for every k <= 4 (structure datasets: also k nearest among the objects passing a WHERE / MATCH / WHEREIN filter), radius = each reported distance, 4 fixed radii; distinct = distinct (dataset, query point)"
+	res.Rule = "SEQ: all datasets of <= 2 (thorough 3) objects from a 18-object catalogue (lattice points at poles / antimeridian, duplicates, 4 rectangles, 2 rectangles degenerate on one axis) each built by 6 histories (direct; moved into place; extras inserted and deleted; ids that first held an empty geometry; ids that first held a string / re-created; other ids that held geometries overwritten by strings), plus 5 antipodal pairs, plus 4 datasets of 130 objects (antimeridian, pole, one shared latitude, one shared longitude); x 49 lattice query points (+ 6 off-lattice near the antimeridian); per query: full order, DISTANCE values, LIMIT k for every k <= 4 (structure datasets: also k nearest among the objects passing a WHERE / MATCH / WHEREIN filter), radius = each reported distance, 4 fixed radii; distinct = distinct (dataset, query point)"
 	res.Assumptions = append(res.Assumptions, "distances on a sphere of radius 6371 km; tolerance 1e-6 relative + 1 m; order inversions count only beyond the tolerance; the distance of an extended object is the distance to its bounding rectangle")
 	cat := c13Catalogue()
 	maxN := 2
@@ -365,6 +365,29 @@ func checkC13(job *Job, res *Result) {
 				}
 			}
 			res.States++
+		}
+		// ---- antipodes: the farthest possible object has a distance too (half the circumference)
+		if job.Shard == 0 {
+			for ai, a := range [][4]float64{{41.92029254063311, 5.683331059765379, -41.92029254063311, -174.31666894023462}, {0, 0, 0, 180}, {45, 10, -45, -170}, {90, 0, -90, 0}, {12.5, -77.25, -12.5, 102.75}} {
+				c.Do("DROP", "ak")
+				c.Do("SET", "ak", "anti", "POINT", fnum(a[2]), fnum(a[3]))
+				c.Do("SET", "ak", "near", "POINT", fnum(a[0]*0.98), fnum(a[1]))
+				c.Do("SET", "ak", "mid", "POINT", "0", fnum(a[1]+90))
+				hits, ok := c13Parse(c.Do("NEARBY", "ak", "DISTANCE", "IDS", "POINT", fnum(a[0]), fnum(a[1])))
+				res.Evaluations++
+				res.DistinctS(fmt.Sprint("antipode", ai))
+				half := math.Pi * 6371e3
+				if !ok || len(hits) != 3 || hits[2].ID != "anti" || math.IsNaN(hits[2].Dist) || math.Abs(hits[2].Dist-half) > half*1e-6+1 {
+					res.Violate("C13/antipode", fmt.Sprintf("NEARBY ak DISTANCE IDS POINT %v %v with an object at the antipode (%v %v): %v (expected it last, at %.0f m)", a[0], a[1], a[2], a[3], hits, half), map[string]any{"antipode": a})
+				}
+				if in, ok := c13Parse(c.Do("NEARBY", "ak", "DISTANCE", "IDS", "POINT", fnum(a[0]), fnum(a[1]), "1000000")); ok {
+					for _, h := range in {
+						if h.ID == "anti" {
+							res.Violate("C13/antipode", fmt.Sprintf("the object at the antipode is returned within a radius of 1000 km of POINT %v %v", a[0], a[1]), map[string]any{"antipode": a})
+						}
+					}
+				}
+			}
 		}
 		// ---- structure scope: 130 objects (inner R-tree nodes), two regions
 		if job.Shard < 4 {
